@@ -442,6 +442,19 @@ func (h *Hist) genTx() *histTx {
 		if r.Intn(5) == 0 {
 			a = have.AddRaw(int64(r.Intn(2)))
 		}
+		if kind == "cm.cancelVest" && r.Intn(4) == 0 {
+			// more than is left in the schedules: up to what they held in total (what has been released already cannot be cancelled)
+			tot := math.ZeroInt()
+			for _, v := range c.VestingTokens {
+				tot = tot.Add(v.TotalAmount)
+			}
+			if tot.GT(have) {
+				a = have.Add(tot.Sub(have).Mul(h.amt(1, 1_000_000)).Quo(math.NewInt(1_000_000)))
+				if r.Intn(2) == 0 {
+					a = tot
+				}
+			}
+		}
 		if !a.IsPositive() {
 			a = math.OneInt()
 		}
